@@ -1,6 +1,6 @@
 \* QUICK: repaired design (all switches TRUE): every safety property and convergence under per-action weak
 \* fairness with a budgeted environment; no CONSTRAINT (bounds are action guards).
-\* Measured: 291 164 distinct states, depth 67, ~30 s on 4 busy cores.
+\* Measured: 306 311 distinct states, depth 67 (291 164 and ~30 s on 4 busy cores before the class dimension).
 CONSTANTS
   InitLen = 3
   MaxLen = 3
@@ -17,10 +17,15 @@ CONSTANTS
   FixRevertVerify = TRUE
   FixUnderflow = TRUE
   Fine = FALSE
-  EmptyDiff = {2, 4}
+  EmptyDiff = {}
   RootCheckedOnEmptyDiff = TRUE
   VerdictPerAnswer = TRUE
+  ClassA = {2, 4}
+  ClassB = {3, 4}
+  SierraSet = {2}
+  RememberKnown = FALSE
+  Windows = FALSE
 SPECIFICATION FairSpec
-INVARIANTS TypeOK LocalIsSourceBlocks ReorgExact StoredOnlyVerified
-PROPERTIES EventuallyConverges StoreSafe HeadMovesOnlyByStoreOrRevert RevertsJustified RevertsHaveEvidence
+INVARIANTS TypeOK LocalIsSourceBlocks ReorgExact StoredOnlyVerified ClassesExact StoredClassesComplete KnownIsCurrent
+PROPERTIES EventuallyConverges StoreSafe HeadMovesOnlyByStoreOrRevert RevertsJustified RevertsHaveEvidence NewClassesSufficient
 CHECK_DEADLOCK TRUE
